@@ -86,6 +86,15 @@ def run(ctx):
                 eq_edge = els if o[1].name == 'eq' else ts.get('0')
             if involved and eq_edge is not None and somes and all(f.edge_dom(bi, eq_edge, sb) for sb in somes):
                 guarded = True
+        if not guarded and not somes:
+            # `(event.seq == seq).then_some(idx)` / `.then(|| idx)`: the answer is Some only when the comparison held
+            for c_ in f.calls(r'^core::bool::<impl bool>::(then_some|then)$'):
+                if c_.dest and c_.dest['l'] == 0:
+                    o_ = f.origin(c_.args[0])
+                    if o_[0] == 'rv' and o_[1]['k'] == 'bin' and o_[1]['op'] == 'Eq' and any(seqp[0] in reads_locals(f, a_) for a_ in o_[1]['a'] if op_place(a_)):
+                        guarded = True
+                    elif o_[0] == 'call' and re.search(r'PartialEq(::|.*>::)eq$', o_[1].callee or '') and any(seqp[0] in reads_locals(f, a_) for a_ in o_[1].args):
+                        guarded = True
         ok = reads_seq and guarded
         ctx.ob('C20.1', f, 'lookup-verifies-key', ok,
                'lookup by seq %s' % ('compares the found frame\'s seq with the requested one before returning Some' if ok else
